@@ -50,7 +50,7 @@ Ltac rew_pcs :=
       match l with
       | cp _ _ => idtac | lp _ _ => idtac | hc _ _ => idtac | pp _ _ => idtac | mp _ _ => idtac
       | closedLock _ => idtac | runningLock _ => idtac | w1 _ => idtac | w2 _ => idtac | run _ => idtac
-      | close_res _ => idtac | fix5 _ => idtac | fix6 _ => idtac | fix12 _ => idtac
+      | close_res _ => idtac | fix16 _ => idtac | fix5 _ => idtac | fix6 _ => idtac | fix12 _ => idtac
       | closed _ => idtac | closingCh _ => idtac | closedCh _ => idtac | ctx_done _ => idtac | early_cancel _ => idtac
       | out_closed _ _ => idtac | sub_open _ _ => idtac | hstop _ _ => idtac | sub_closing _ _ => idtac | dec_closing _ _ => idtac
       end;
@@ -101,8 +101,10 @@ Record InvC (s : state) : Prop := {
   c_np : panicked s = false -> True
 }.
 
-Lemma InvC_init n hon f5 f6 f12 : InvC (init n hon f5 f6 f12).
+Lemma InvC_init_u n u hon f5 f6 f12 f16 : InvC (init_u n u hon f5 f6 f12 f16).
 Proof. constructor; simpl; intros; try congruence; try discriminate; auto. Qed.
+Lemma InvC_init n hon f5 f6 f12 : InvC (init n hon f5 f6 f12).
+Proof. apply InvC_init_u. Qed.
 
 Lemma InvC_step s l s' : InvC s -> step s l = Some s' -> InvC s'.
 Proof.
@@ -125,7 +127,7 @@ Definition w2_holds (p : w2pc) : bool := match p with W2Locked | W2Unlock => tru
 Definition pub_done (p : lpc) : bool := match p with LWgDone | LEnd => true | _ => false end.
 
 Record InvA (s : state) : Prop := {
-  a_hwg : handlersWg s = cnt loop_alive (lp s) (nh s);
+  a_hwg : handlersWg s = cnt loop_alive (lp s) (nh s) + unstarted s;
   a_rwg : runningWg s = cnt in_progress (mp s) (nextm s);
   a_hb1 : forall h, nh s <= h -> lp s h = LNone /\ pp s h = PNone;
   a_hb2 : forall h, h < nh s -> lp s h <> LNone;
@@ -153,10 +155,10 @@ Proof.
   destruct (Nat.ltb_spec k n); [|lia]. simpl. rewrite IH by lia. reflexivity.
 Qed.
 
-Lemma InvA_init n hon f5 f6 f12 : InvA (init n hon f5 f6 f12).
+Lemma InvA_init_u n u hon f5 f6 f12 f16 : InvA (init_u n u hon f5 f6 f12 f16).
 Proof.
   constructor; simpl; intros; try congruence; try discriminate; auto.
-  - symmetry. apply cnt_init. lia.
+  - rewrite cnt_init by lia. reflexivity.
   - destruct (Nat.ltb_spec h n); [lia|]. auto.
   - destruct (Nat.ltb_spec h n); [congruence|lia].
   - destruct (Nat.ltb h n); discriminate.
@@ -165,6 +167,8 @@ Proof.
   - destruct (Nat.ltb h n); discriminate.
   - destruct (Nat.ltb h n); discriminate.
 Qed.
+Lemma InvA_init n hon f5 f6 f12 : InvA (init n hon f5 f6 f12).
+Proof. apply InvA_init_u. Qed.
 
 
 Ltac eqbs := repeat match goal with
@@ -212,7 +216,7 @@ Ltac cnt_special Ahwg Arwg Ahb1 Amb Aloop2 :=
         assert (mp s m = MLoop h) by (apply Aloop2; rewrite Hl; simpl; apply Nat.eqb_refl);
         rewrite (cnt_upd_inc in_progress (mp s) (nextm s) m MSpawned);
         [congruence | lt_m Amb | rew_pcs; reflexivity | reflexivity]
-    | Hl : lp ?s ?h = LWgDone |- Nat.pred (handlersWg ?s) = cnt _ (upd (lp ?s) ?h LEnd) _ =>
+    | Hl : lp ?s ?h = LWgDone |- Nat.pred (handlersWg ?s) = cnt _ (upd (lp ?s) ?h LEnd) _ + _ =>
         let Hd := fresh in
         pose proof (cnt_upd_dec loop_alive (lp s) (nh s) h LEnd) as Hd;
         rewrite Hl in Hd; simpl in Hd; rewrite Ahwg; rewrite <- Hd; [reflexivity | lt_h Ahb1 | reflexivity | reflexivity]
@@ -359,10 +363,12 @@ Qed.
 Lemma InvA_LSubCloseRet s h s' : InvC s -> InvA' s -> step s (LSubCloseRet h) = Some s' -> InvA' s'.
 Proof. intros IC I H. invA_auto s IC I H. Qed.
 
-Lemma InvA'_init n hon f5 f6 f12 : InvA' (init n hon f5 f6 f12).
+Lemma InvA'_init_u n u hon f5 f6 f12 f16 : InvA' (init_u n u hon f5 f6 f12 f16).
 Proof.
-  constructor; [apply InvA_init|]. simpl. intros h m. destruct (Nat.ltb h n); discriminate.
+  constructor; [apply InvA_init_u|]. simpl. intros h m. destruct (Nat.ltb h n); discriminate.
 Qed.
+Lemma InvA'_init n hon f5 f6 f12 : InvA' (init n hon f5 f6 f12).
+Proof. apply InvA'_init_u. Qed.
 
 Lemma InvA'_step s l s' : InvC s -> InvA' s -> step s l = Some s' -> InvA' s'.
 Proof.
